@@ -3,7 +3,7 @@
 From Coq Require Import ZArith String List Bool.
 Import ListNotations.
 Require Import ZV.Model.PrattTypes ZV.Model.Pratt ZV.Model.PrattSpec ZV.Generated.InfixTable.
-Require Import ZV.Model.PrattSlice ZV.Proofs.PrattSliceProofs ZV.Model.PrattFor ZV.Proofs.PrattProofs ZV.Proofs.PrattInstance ZV.Proofs.PrattForProofs.
+Require Import ZV.Model.PrattLvalue ZV.Proofs.PrattLvalueProofs ZV.Model.PrattSlice ZV.Proofs.PrattSliceProofs ZV.Model.PrattFor ZV.Proofs.PrattProofs ZV.Proofs.PrattInstance ZV.Proofs.PrattForProofs.
 Open Scope Z_scope.
 Open Scope string_scope.
 
@@ -204,6 +204,19 @@ Theorem slice_selects_go_slice :
     shape_of sel = Some sh -> select_model A l sel = select_spec A l sh.
 Proof. exact select_exact. Qed.
 Print Assumptions slice_selects_go_slice.
+
+(* what an assignment through an index / field path means (specification used as the oracle of
+   the lvalue family of the run): after  path = v  reading the same path gives v, and every path
+   that diverges from it (another index, another field at some depth) reads as before *)
+Theorem assign_read_after_write :
+  forall p v d d', dset p v d = Some d' -> dget p d' = Some v.
+Proof. exact dget_dset_same. Qed.
+Print Assumptions assign_read_after_write.
+
+Theorem assign_frame :
+  forall p q v d d', dset p v d = Some d' -> diverge q p -> dget q d' = dget q d.
+Proof. exact dget_dset_other. Qed.
+Print Assumptions assign_frame.
 
 (* non-vacuity *)
 Definition s (n : string) : tok := TSym n false.
